@@ -18,7 +18,7 @@ RULE = ("random lists of 1-12 segments (printable text of every width class, new
 ASSUMPTIONS = ["Color.downgrade is trusted here for the expected colour after down-conversion (decided by C18)",
                "control segments are unstyled, as Console.control creates them",
                "segment texts contain no ESC / C0 control characters"]
-REQUIRED = ["mon.stream_decoded", "mon.char_compared", "mon.no_escape_when_colour_off", "mon.no_color",
+REQUIRED = ["mon.detected_terminal_phase", "mon.stream_decoded", "mon.char_compared", "mon.no_escape_when_colour_off", "mon.no_color",
             "mon.not_terminal", "mon.shared_style", "mon.exhaustive_attr"]
 MIN_NONTRIVIAL = {"quick": 5000, "thorough": 200000}
 
@@ -240,6 +240,52 @@ def wl_text(ctx, rng, case_no):
     ctx.case_done(("txt", repr(wit)), len(spans) >= 1, wit)
 
 
+class _File(io.StringIO):
+    """A text file that says itself whether it is a terminal (what Console asks when force_terminal is None)."""
+
+    def __init__(self, tty):
+        super().__init__()
+        self._tty = tty
+
+    def isatty(self):
+        return self._tty
+
+
+def wl_detected(ctx, rng, case_no):
+    """The console DETECTS whether its target is a terminal (force_terminal=None) and the program points it at
+    other files during its life (the documented Console.file setter: a terminal, then a log file, ...).
+    Every phase's stream is decoded on its own; controls may appear only in the phases whose file is a terminal."""
+    from rich.console import Console
+    system = rng.choice(SYSTEMS)
+    no_color = rng.random() < 0.15
+    phases = [rng.random() < 0.5 for _ in range(rng.randint(2, 4))]
+    if len(set(phases)) == 1:
+        phases[rng.randrange(len(phases))] = not phases[0]
+    files = [_File(tty) for tty in phases]
+    console = Console(file=files[0], width=400, color_system=system, force_terminal=None, legacy_windows=False,
+                      no_color=no_color, _environ={})
+    wit = {"color_system": system, "no_color": no_color, "phases_is_terminal": phases, "phase_segments": []}
+    ok = True
+    for i, (tty, f) in enumerate(zip(phases, files)):
+        if i:
+            console.file = f
+        items = gen_segments(rng)
+        if not any(k == "control" for k, _, _ in items):
+            items.insert(rng.randint(0, len(items)), ("control", rng.choice(CONTROLS), None))
+        wit["phase_segments"].append(_items_json(items))
+        console.print(SegList(real_segments(items)), crop=False)
+        ctx.count("mon.detected_terminal_phase")
+        if console.is_terminal != tty:
+            ctx.violation("is_terminal-differs-from-current-file", dict(wit, phase=i, got=console.is_terminal))
+            ok = False
+            break
+        if not check_stream(ctx, f.getvalue(), items, (system, no_color, tty, False),
+                            dict(wit, phase=i, stream=f.getvalue()), ":after-file-switch" if i else ""):
+            ok = False
+            break
+    ctx.case_done(("det", repr(wit)), ok and len(phases) >= 2, wit)
+
+
 def wl_shared_style(ctx, rng, case_no):
     """One Style object used on two consoles with different colour systems, in both orders -
     what Style.parse's cache does to every program that has two consoles."""
@@ -307,7 +353,8 @@ def workloads(tier):
     return [WL("exhaustive", wl_exhaustive, kind="custom"),
             WL("segments", wl_segments, 1000000 if big else 120000),
             WL("printed_text", wl_text, 300000 if big else 40000),
-            WL("shared_style", wl_shared_style, 200000 if big else 20000)]
+            WL("shared_style", wl_shared_style, 200000 if big else 20000),
+            WL("detected_terminal", wl_detected, 200000 if big else 20000)]
 
 
 LEVEL_TEXT = ("Prints generated styled segment lists and Texts through real Console objects in every colour-system "
